@@ -379,19 +379,42 @@ def case_dataset(B, cfg):
         df = df.drop(columns=['Duration'])
         kw['dose_duration_key'] = None
         want = [[(t, d, 0.01) for (t, d, u) in w] for w in want]
+    if cfg.get('before'):
+        # call history: the controller has already been given another
+        # (dosed) dataset over the same individuals; the regimens must be
+        # those of the dataset set last
+        rows0, _ = dataset_rows(B, cfg['before'], labels, tag='p')
+        df0 = pd.DataFrame(interleave(rows0, 'blocks'), columns=[
+            'ID', 'Time', 'Observable', 'Value', 'Dose', 'Duration'])
+        try:
+            ctrl.set_data(df0)
+        except Exception as e:
+            B.fact('no-exception:set_data (earlier dataset)', False, repr(e))
+            return
+    if cfg.get('undosed'):
+        # the dataset set last carries no dose column: nobody is dosed
+        df = df.drop(columns=[c for c in ('Dose', 'Duration')
+                              if c in df.columns])
+        df = df[df['Observable'].notna()]
+        kw = dict(dose_key=None, dose_duration_key=None)
+        want = [[] for _ in want]
     try:
         ctrl.set_data(df, **kw)
     except Exception as e:
         B.fact('no-exception:set_data', False, repr(e))
         return
     regs = ctrl.get_dosing_regimens()
+    if cfg.get('undosed'):
+        B.fact('no dose column: no regimens', regs is None, repr(regs))
+        regs = {}
     first = []
     for r in flat:
         if str(r['ID']) not in first:
             first.append(str(r['ID']))
-    B.fact('one regimen per individual, keyed by the ID as a string',
-           regs is not None and sorted(regs.keys()) == sorted(first),
-           repr(None if regs is None else list(regs.keys())))
+    if not cfg.get('undosed'):
+        B.fact('one regimen per individual, keyed by the ID as a string',
+               regs is not None and sorted(regs.keys()) == sorted(first),
+               repr(None if regs is None else list(regs.keys())))
     if regs is None:
         return
     for i, lab in enumerate(labels):
@@ -639,6 +662,17 @@ def jobs(tier):
         direct=True, layout=[['D', 'B'], ['M'], ['B', 'X', 'D']],
         order='interleaved', ids=[3, 1, 2], then_individually=[1, 0, 1]),
         FACADE))
+    # call histories: an earlier dataset on the same controller
+    for k, (lay, before, und) in enumerate((
+            ([['M', 'D'], ['B', 'M']], [['D', 'B', 'M'], ['M', 'D']], False),
+            ([['M', 'D'], ['M']], [['D', 'M'], ['B', 'D', 'M']], False),
+            ([['M', 'D'], ['B', 'M']], [['D', 'B', 'M'], ['M', 'D']], True),
+            ([['M', 'M'], ['M']], [['M', 'B'], ['D', 'D', 'M']], True))):
+        for pop in (False, True):
+            out.append(('dataset', 'case_dataset', dict(
+                direct=(k % 2 == 0), layout=lay, before=before, undosed=und,
+                order='blocks', ids=[['a', 'b'], [2, 1]][k % 2],
+                then_individually=[1, 0], population=pop), FACADE))
     for direct in (True, False):
         for num in (None, 0, 1, 2, 3):
             for period in (False, True):
